@@ -113,6 +113,12 @@ CLAIMED["C12"] = dict(
    text="Sequential: generated histories with generated monotone clocks are compared after every operation with an exact-rational reference model (completed, percentage, finished, fixed finish time, speed and time-remaining signs). Concurrent: real threads are serialised by a scheduler that can preempt at every traced line of rich/progress.py and every operation of the proxied progress lock; all single-preemption schedules of four fixed programs are enumerated in every run (pairs in the thorough tier) and generated programs/schedules extend the search; final counters must equal the sum of the advances and no estimate may be negative. track() is run over lists, ranges and generators with and without the helper thread.",
    note="Exact amounts (integers, quarters); Progress(disable=True) for accounting; C-level calls are atomic under the GIL; estimates are read under the progress lock as the display does.",
    ref="5 C12")
+CLAIMED["C10"] = dict(
+   technique="model-based Hypothesis history testing: emitted bytes replayed on a VT100-subset screen model and compared with an independently computed expected screen after every operation; fault injection at generated render indices and block positions",
+   level="fault_enumeration",
+   text="Generated histories over Live, Progress and Status (transient, vertical_overflow, terminal sizes, frames that grow/shrink/vanish/exceed the screen, restarts, redirected stdout) are executed; after every operation the bytes written so far are replayed on a terminal model and must show exactly the printed rows followed by the frame as of the last draw, with the cursor never above the live region and visible after stop. Fault runs make the displayed renderable raise at a generated render index (one-shot/persistent, escaping the with-block or caught by the program) or make the block body raise after j operations, and require propagation plus restoration of cursor, stdout/stderr, render hook and started flag.",
+   note="auto_refresh off; single-width text; frames taller than the screen only with crop/ellipsis; Progress tables within the screen height; expected printed rows come from a plain twin console.",
+   ref="5 C10")
 NOT_YET = {}
 props = [json.loads(l) for l in open(os.path.join(V, "properties.jsonl"))]
 checks = []
